@@ -16,6 +16,18 @@ local macro "pin_tac" d:ident : tactic =>
     | (simp only [$d:ident]; ac_rfl)
     | (simp [$d:ident, BitVec.add_comm, BitVec.and_comm, BitVec.or_comm, BitVec.xor_comm, BitVec.mul_comm, Bool.and_comm, Bool.or_comm]))
 
+theorem init_a0_pin (xruntime_Parallelism : BitVec 32) :
+    Gen.CacheMaint.init_a0 xruntime_Parallelism = xruntime_Parallelism := by pin_tac Gen.CacheMaint.init_a0
+
+theorem init_a1_pin (parallelism : BitVec 32) :
+    Gen.CacheMaint.init_a1 parallelism = (BitVec.setWidth 64 (OtterVerif.Gen.Xmath.RoundUpPowerOf2 parallelism)) := by pin_tac Gen.CacheMaint.init_a1
+
+theorem init_a2_pin (roundedParallelism : BitVec 64) :
+    Gen.CacheMaint.init_a2 roundedParallelism = (BitVec.setWidth 32 ((128#64) * roundedParallelism)) := by pin_tac Gen.CacheMaint.init_a2
+
+theorem init_a3_pin (roundedParallelism : BitVec 64) :
+    Gen.CacheMaint.init_a3 roundedParallelism = ((4#64) * roundedParallelism) := by pin_tac Gen.CacheMaint.init_a3
+
 theorem cache_afterRead_c0_pin (recordHit : Bool) :
     Gen.CacheMaint.cache_afterRead_c0 recordHit = recordHit := by pin_tac Gen.CacheMaint.cache_afterRead_c0
 
@@ -151,7 +163,11 @@ theorem cache_StopAllGoroutines_a0_pin :
 theorem cache_StopAllGoroutines_r0_pin (stopped : Bool) :
     Gen.CacheMaint.cache_StopAllGoroutines_r0 stopped = stopped := by pin_tac Gen.CacheMaint.cache_StopAllGoroutines_r0
 
-theorem siteParams_pin : Gen.CacheMaint.siteParams = [("cache_afterRead_c0", ["recordHit"]),
+theorem siteParams_pin : Gen.CacheMaint.siteParams = [("init_a0", ["xruntime_Parallelism"]),
+  ("init_a1", ["parallelism"]),
+  ("init_a2", ["roundedParallelism"]),
+  ("init_a3", ["roundedParallelism"]),
+  ("cache_afterRead_c0", ["recordHit"]),
   ("cache_afterRead_c1", ["calcExpiresAt"]),
   ("cache_afterRead_c2", ["c_shouldDrainBuffers_delayable"]),
   ("cache_afterRead_a0", ["c_readBuffer_Add_got", "c_skipReadBuffer"]),
@@ -197,7 +213,8 @@ theorem siteParams_pin : Gen.CacheMaint.siteParams = [("cache_afterRead_c0", ["r
   ("cache_StopAllGoroutines_a0", []),
   ("cache_StopAllGoroutines_r0", ["stopped"])] := by rfl
 
-theorem shape_pin : Gen.CacheMaint.shape = [("cache_afterRead", [3, 0, 1, 0]),
+theorem shape_pin : Gen.CacheMaint.shape = [("init", [0, 0, 4, 0]),
+  ("cache_afterRead", [3, 0, 1, 0]),
   ("cache_CleanUp", [0, 0, 0, 0]),
   ("cache_shouldDrainBuffers", [0, 0, 1, 3]),
   ("cache_skipReadBuffer", [0, 0, 0, 1]),
